@@ -12,7 +12,7 @@ use std::time::{Duration, Instant};
 use vcore::choice::{self, Chooser};
 use vcore::step::RunEnd;
 use vcore::{Run, Violation, util};
-use vdb::conc::{self, canon_labels};
+use vdb::conc::{self, Start, canon_labels};
 use vdb::fixture::Idx;
 use vdb::ops::Op;
 
@@ -88,8 +88,8 @@ struct ExecVerdict {
     labels: Vec<String>,
 }
 
-fn one_execution(idx: Idx, ops: &[Op], ch: &mut Chooser) -> ExecVerdict {
-    let live = conc::open_live(idx);
+fn one_execution(idx: Idx, start_kind: Start, ops: &[Op], ch: &mut Chooser) -> ExecVerdict {
+    let live = conc::open_live_at(idx, start_kind);
     let coll = live.fx.coll.clone();
     let out = conc::run_ops(&live, &coll, ops, ch, 4000);
     let labels = canon_labels(&out.labels);
@@ -99,7 +99,7 @@ fn one_execution(idx: Idx, ops: &[Op], ch: &mut Chooser) -> ExecVerdict {
         RunEnd::Deadlock(who) => Some(("deadlock".to_string(), format!("deadlock: tasks {who:?} blocked forever"))),
         RunEnd::StepLimit => Some(("livelock".to_string(), "no completion within 4000 scheduling steps".to_string())),
         RunEnd::AllDone => {
-            let start = &conc::preloaded(idx).model;
+            let start = &conc::preloaded_at(idx, start_kind).model;
             match conc::linearize(&live, &coll, idx, start, ops, &out) {
                 Ok(order) => conc::check_flush_snapshot(idx, start, ops, &out, &order)
                     .into_iter()
@@ -138,7 +138,8 @@ fn main() {
         let ops: Vec<Op> = serde_json::from_value(v["replay"]["ops"].clone()).expect("ops");
         let choices: Vec<u32> = serde_json::from_value(v["replay"]["choices"].clone()).expect("choices");
         let mut ch = Chooser::new(choices.clone());
-        let verdict = one_execution(idx, &ops, &mut ch);
+        let start_kind: Start = v["replay"].get("start").and_then(|s| serde_json::from_value(s.clone()).ok()).unwrap_or(Start::Two);
+        let verdict = one_execution(idx, start_kind, &ops, &mut ch);
         if let Some(d) = ch.diverged {
             vcore::report::machinery(&format!("replay diverged: {d}"));
         }
@@ -156,10 +157,25 @@ fn main() {
     let deadline = Instant::now() + Duration::from_secs_f64(run.budget_s);
     let threads = util::n_threads();
     // (set size, preemption bound)
-    let plan: Vec<(usize, u32)> = run.tier.pick(vec![(2, 2), (3, 1)], vec![(2, 3), (3, 2), (4, 1), (3, 3), (2, 4), (4, 2)]);
+    // (family, start state, alphabet, set size, preemption bound)
+    let main_plan: Vec<(usize, u32)> = run.tier.pick(vec![(2, 2), (3, 1)], vec![(2, 3), (3, 2), (4, 1), (3, 3), (2, 4), (4, 2)]);
+    let mut plan: Vec<(&str, Start, Vec<Op>, usize, u32)> = main_plan.iter().map(|(k, b)| ("main", Start::Two, alpha.clone(), *k, *b)).collect();
+    if property == "C05" {
+        // calls on the id a concurrent add is about to receive (ids are sequential, the next one is 3)
+        let fresh = vec![Op::Add(3), Op::Add(5), Op::Remove(3), Op::Update(3, 0), Op::Get(3), Op::Flush, Op::Remove(3)];
+        // adds straddling the allocation-watermark stride: 65 flushed documents, the next id (66) is the
+        // first one above the published watermark; Add(101) is rejected in the index phase (unique name of document 1)
+        let stride = vec![Op::Add(101), Op::Add(3), Op::Add(5), Op::Add(102), Op::Remove(66), Op::Flush];
+        let extra: Vec<(&str, Start, Vec<Op>, usize, u32)> = run.tier.pick(
+            vec![("fresh-id", Start::Two, fresh.clone(), 2, 2), ("fresh-id", Start::Two, fresh.clone(), 3, 1), ("watermark-stride", Start::Bulk64, stride.clone(), 2, 2), ("watermark-stride", Start::Bulk64, stride.clone(), 3, 1)],
+            vec![("fresh-id", Start::Two, fresh.clone(), 2, 3), ("fresh-id", Start::Two, fresh.clone(), 3, 2), ("fresh-id", Start::Two, fresh.clone(), 4, 1), ("watermark-stride", Start::Bulk64, stride.clone(), 2, 3), ("watermark-stride", Start::Bulk64, stride.clone(), 3, 2), ("watermark-stride", Start::Bulk64, stride.clone(), 4, 1)],
+        );
+        // small families first: they are cheap and must not be starved by the main alphabet
+        plan = extra.into_iter().chain(plan).collect();
+    }
     let mut completed: Vec<String> = Vec::new();
     let mut outcome_kinds = std::collections::BTreeSet::new();
-    'plan: for (k, bound) in plan {
+    'plan: for (family, start_kind, alpha, k, bound) in plan {
         let sets = subsets(alpha.len(), k);
         struct SetOut {
             ops: Vec<Op>,
@@ -180,8 +196,8 @@ fn main() {
                 return so;
             }
             // determinism self-check: the default schedule twice
-            let a = one_execution(idx, &ops, &mut Chooser::new(vec![]));
-            let b = one_execution(idx, &ops, &mut Chooser::new(vec![]));
+            let a = one_execution(idx, start_kind, &ops, &mut Chooser::new(vec![]));
+            let b = one_execution(idx, start_kind, &ops, &mut Chooser::new(vec![]));
             if a.labels != b.labels || a.outcome_key != b.outcome_key {
                 so.machinery = Some(format!("nondeterministic replay for ops {ops:?}: {:?} vs {:?}", a.labels, b.labels));
                 return so;
@@ -192,7 +208,7 @@ fn main() {
                 deadline,
                 u64::MAX,
                 |ch| {
-                    let v = one_execution(idx, &ops, ch);
+                    let v = one_execution(idx, start_kind, &ops, ch);
                     (v, ch.diverged.clone())
                 },
                 |choices, (v, div)| {
@@ -238,7 +254,7 @@ fn main() {
                 run.violation(Violation {
                     signature: format!("{property}|step|{sig}|{}", ops.iter().map(kind).collect::<Vec<_>>().join("+")),
                     summary: format!("ops {ops:?} schedule {choices:?}: {msg}"),
-                    replay: json!({"ops": ops, "choices": choices}),
+                    replay: json!({"ops": ops, "choices": choices, "start": start_kind}),
                 });
             }
             if stats.capped {
@@ -248,10 +264,10 @@ fn main() {
             }
         }
         if capped {
-            run.cap_hit(&format!("time budget: {sets_done}/{} op sets of size {k} completed at preemption bound {bound}", sets.len()));
+            run.cap_hit(&format!("time budget: family {family}: {sets_done}/{} op sets of size {k} completed at preemption bound {bound}", sets.len()));
             break 'plan;
         }
-        completed.push(format!("{k} concurrent calls: all {} op sets, preemption bound {bound}", sets.len()));
+        completed.push(format!("{family}: {k} concurrent calls: all {} op sets, preemption bound {bound}", sets.len()));
     }
     let ex = run.get("executions");
     run.add("traces_validated_against_impl", ex);
